@@ -14,10 +14,12 @@ def run(chk):
     binary = vlib.harness_build()
     cl.model_check(chk, 3, big=False, configure=True)
     sc = cl.gen_scenarios(chk, "C20", thorough)
-    out = cl.run_scenarios(binary, sc, wd, "c20")
+    scripts = cl.script_walks(chk, binary, wd, chk.seed + 20, 3000 if thorough else 250)
+    out = cl.run_scenarios(binary, sc + scripts, wd, "c20")
     outs, ifl, pfl = cl.validate(chk, out, wd, "c20", shard=600)
     cl.report(chk, outs, ifl, pfl, {"P20", "abnormal"}, WHAT)
     chk.cov["traces_validated_against_impl"] = len(outs)
+    chk.cov["reply_script_walks"] = len(scripts)
     chk.cov["evaluations"] = len(outs)
     chk.cov["distinct_nontrivial"] = len(sc)
     chk.cov["rule"] = ("TLC generates: result codes (%s) x operations {read_card, begin, commit, cancel, configure; with and without a dangling "
